@@ -118,6 +118,9 @@ Unit(
     canary="n_calls('callback') == 1",
 )
 
+AM = "self.all_models.filename_to_model"
+LM = "self.local_models.filename_to_model"
+
 Unit(
     "scoping.GlobalModelRepository.load_model",
     target="textx/scoping/__init__.py::GlobalModelRepository.load_model",
@@ -133,7 +136,20 @@ Unit(
          "implies(n_calls('internal_model_from_file') == 1, "
          "evn('internal_model_from_file', 0).kwargs['model_params'] == model_params"
          " and evn('internal_model_from_file', 0).args[0] == abspath(filename))"),
+        # C17: a file is parsed only if it is known neither locally nor globally
+        ("C17-file-parsed-at-most-once",
+         f"(n_calls('internal_model_from_file') == 1) == (not old(abspath(filename) in {LM})"
+         f" and not old(abspath(filename) in {AM}))", "C17"),
+        ("C17-cached-model-reused-with-its-identity",
+         f"implies(old(abspath(filename) in {AM}) and not old(abspath(filename) in {LM}),"
+         f" result == old({AM}[abspath(filename)]))", "C17"),
+        ("C17-result-is-the-globally-registered-model",
+         f"abspath(filename) in {AM} and result == {AM}[abspath(filename)]", "C17"),
+        ("C17-visible-locally-iff-requested",
+         f"implies(not old(abspath(filename) in {LM}) and truthy(add_to_local_models),"
+         f" abspath(filename) in {LM} and {LM}[abspath(filename)] == result)", "C17"),
     ],
+    ext_protect=["self.*", "self.all_models.*", "self.local_models.*"],
     canary="n_calls('internal_model_from_file') == 1",
 )
 
@@ -156,7 +172,11 @@ Unit(
     },
     modifies=["*"],
     loops={"for:filenames": Loop(modifies=["*"], inv=[], body_unit="scoping.load_models_using_filepattern.step")},
-    ensures=[],
+    ensures=[
+        ("C17-importer-registered-before-any-import-is-loaded",
+         "implies(model is not None, n_calls('update_model_in_repo') == 1 and "
+         "evn('update_model_in_repo', 0).args[0] == model and evpos('update_model_in_repo', 0) == 0)", "C17"),
+    ],
     canary="len(result) == 0",
 )
 
@@ -201,6 +221,12 @@ Unit(
         ("first-existing-candidate-loaded-with-the-given-parameters",
          "n_calls('load_model') == 1 and evn('load_model', 0).kwargs['model_params'] == model_params"
          " and result == evn('load_model', 0).result"),
+        # C17: the importing model is registered in the shared repository BEFORE its import is
+        # loaded - an import cycle back to it then finds it instead of parsing the file again
+        ("C17-importer-registered-before-the-import-is-loaded",
+         "implies(old(truthy(model)), n_calls('update_model_in_repo') == 1 and "
+         "evn('update_model_in_repo', 0).args[0] == model and "
+         "evpos('update_model_in_repo', 0) < evpos('load_model', 0))", "C17"),
     ],
     canary="n_calls('load_model') == 0",
 )
